@@ -506,7 +506,8 @@ func execute(cfg Cfg, hist []Step) (res execResult) {
 				case base.Announce:
 					t.announced = rs.Medias
 				case base.Setup:
-					if exp.kind == "L" {
+					if t.state == sPrePlay || t.state == sPreRecord {
+						// an accepted SETUP (L or E cell) configures the track and fixes the transport
 						t.setup[rs.Track] = true
 						t.proto = rs.Proto
 					}
@@ -978,7 +979,7 @@ func main() {
 			jobNodes = append(jobNodes, cands[i:j])
 			i = j
 		}
-		results := evid.RunJobs(jobs, 16, 3*time.Minute)
+		results := evid.RunJobs(jobs, 16, 12*time.Minute)
 		var next []node
 		for ji, r := range results {
 			if r.Crashed || r.Stalled {
